@@ -358,4 +358,37 @@ theorem tail_section_s (p : SPoint) (hf0 : p.fields ≠ []) (hfs : ∀ f ∈ p.f
     rfl
 
 
+
+
+theorem splitLinesGo_noNL : ∀ (s cur : Bytes), (∀ c ∈ s, c ≠ bNL) →
+    splitLinesGo s cur = if (cur.reverse ++ s).isEmpty then [] else [cur.reverse ++ s] := by
+  intro s
+  induction s with
+  | nil =>
+    intro cur _
+    rw [splitLinesGo]
+    cases cur <;> simp
+  | cons c cs ih =>
+    intro cur h
+    rw [splitLinesGo, if_neg (h c (by simp)), ih (c :: cur) (fun x hx => h x (by simp [hx]))]
+    simp
+
+theorem splitLines_noNL (s : Bytes) (h : ∀ c ∈ s, c ≠ bNL) (hne : s ≠ []) : splitLines s = [s] := by
+  unfold splitLines
+  rw [splitLinesGo_noNL s [] h]
+  cases s with
+  | nil => exact absurd rfl hne
+  | cons c cs => simp
+
+theorem parseLine_of_row (noEsc : Bool) (s : Bytes) (r : Row) (hs : LineShape s) (h : parseRow noEsc s = .ok r) :
+    parseLine noEsc s = .row r := by
+  unfold parseLine
+  rw [if_neg hs.2.1]
+  cases s with
+  | nil => exact absurd rfl hs.2.2.2
+  | cons c cs =>
+    have : c ≠ bHash := by intro e; exact hs.2.2.1 (by simp [e])
+    simp only [this, if_false, h]
+
+
 end OG.C06
